@@ -440,6 +440,7 @@ type c17Family struct {
 	values []string
 	number bool
 	extra  bool
+	modes  []c17Mode // nil = all of c17Modes
 }
 
 var c17Modes = []c17Mode{
@@ -491,6 +492,12 @@ func c17Families(thorough bool) []c17Family {
 		{tag: "core<=4", res: core, sels: c17Selections, values: c17Strings(abc, 0, 4)},
 		{tag: "number", res: num, sels: c17Selections, values: numVals, number: true},
 		{tag: "shapes", res: []string{c17CardRe, c17Card2Re, c17IDRe, c17MailRe, c17PhoneRe}, sels: shapeSel, values: shapeVals},
+		// anchors and top-level alternation: a leading ^ or \A (binding to the first branch only), a trailing $,
+		// (?m)^ where every line start matches -- how often such an expression matches is the engine's business
+		{tag: "anchors", res: []string{`^(a)`, `\A(a)`, `^(a)|(b)`, `\A(a)|é(b)`, `^(a)$|b(a)`, `(a)$`, `^(a)$`, `^(a)?(b)`, `^(?:(a)|(b))`},
+			sels: c17Selections, values: c17Strings(abc, 0, 4), modes: []c17Mode{{name: "mask0"}, {name: "replace", word: "XY"}}},
+		{tag: "anchors-multiline", res: []string{`(?m)^(a)`, `(?m)^(a)|(b)$`, `(?m)(a)$`, `^(a)|\n(b)`},
+			sels: c17Selections, values: c17Strings([]string{"a", "b", "\n"}, 0, 4), modes: []c17Mode{{name: "mask1", mc: 1}, {name: "cut", cut: true}}},
 		{tag: "three<=4", res: three, sels: c17Selections, values: c17Strings(abc, 0, 4), extra: true},
 		{tag: "core5", res: core, sels: c17Selections, values: c17Strings(abc, 5, 5), extra: true},
 	}
@@ -583,7 +590,11 @@ func c17RunLeaves(w *c17Writer, sum *c17Summary, rng *rand.Rand, thorough bool, 
 				panic(err)
 			}
 			for _, sel := range fam.sels(re0.NumSubexp()) {
-				for _, md := range c17Modes {
+				modes := c17Modes
+				if fam.modes != nil {
+					modes = fam.modes
+				}
+				for _, md := range modes {
 					conf := &Config{
 						MaskAppliedField: "ap",
 						MaskAppliedValue: "1",
@@ -616,7 +627,7 @@ func c17RunLeaves(w *c17Writer, sum *c17Summary, rng *rand.Rand, thorough bool, 
 						if fam.number {
 							doc = `{"k":` + val + `}`
 						} else {
-							doc = `{"k":"` + val + `"}`
+							doc = `{"k":"` + strings.ReplaceAll(val, "\n", `\n`) + `"}`
 						}
 						if err := root.DecodeString(doc); err != nil {
 							sum.SkipWhy["undecodable value "+val]++
